@@ -120,6 +120,8 @@ def make_abs_libxc(env):
     fns = {}
 
     def _call(kind, xcid, arrs):
+        # leaf = exc per particle (total, finite for every rho >= 0 as libxc guarantees below its
+        # density threshold); v_k = d(n exc)/d arg_k = exc dn/darg_k + n dexc/darg_k
         nspin, size = arrs[0].shape
         nargs = sum(a.shape[0] for a in arrs)
         f = fns.setdefault((kind, str(xcid), nspin), LeafFn(env, "LIBXC_%s_%s_ns%d" % (kind, xcid, nspin), nargs))
@@ -128,11 +130,11 @@ def make_abs_libxc(env):
         for g in range(size):
             args = [a[r, g] for a in arrs for r in range(a.shape[0])]
             n = sum((arrs[0][s, g] for s in range(nspin)), 0)
-            exc[g] = f.val(args) / n
+            exc[g] = f.val(args)
             k = 0
             for v, a in zip(vs, arrs):
                 for r in range(a.shape[0]):
-                    v[r, g] = f.grad(args, k)
+                    v[r, g] = n * f.grad(args, k) + (exc[g] if (v is vs[0]) else 0)
                     k += 1
         return tuple([exc] + vs)
 
